@@ -17,7 +17,7 @@ package main
 
 //@ func generateTemplate {C07 | safety: C07}
 //@   deterministic [det C07]
-//@   modifies gpos, cstart, gone, gtwo, gname, gkw, gElem, gDoc, gName, gType, gMIn, gMOut, gIdlDoc, gIfaceName
+//@   modifies gpos, cstart, gone, gtwo, gname, gkw, gElem, gDoc, gName, gType, gMIn, gMOut, gIdlDoc, gIfaceName, gLC, gLCkw
 //@   hypothesis [struct-params] at call(New)#1 : res1 == nil ==> (forall i int :: 0 <= i && i < len(res0.Methods) ==> res0.Methods[i].In.Kind == idl.TypeStruct && res0.Methods[i].Out.Kind == idl.TypeStruct)
 //@   ensures [err C07] result2 != nil ==> result0 == "" && result1 == nil
 
